@@ -111,7 +111,7 @@ sexp sexp_bit_xor (sexp ctx, sexp self, sexp_sint_t n, sexp x, sexp y) {
 
 static int log2i(sexp_uint_t v) {
   int i;
-  for (i = 0; i < sizeof(v)*8; i++)
+  for (i = 0; i < sizeof(v)*8-1; i++)
     if (((sexp_uint_t)1<<(i+1)) > v)
       break;
   return i;
